@@ -127,4 +127,11 @@ CLAIMS = {
         "note": _STD_NOTE + " Foreign unguarded reads of num_pending by executor loop guards are listed in evidence (they only delay exit; C10 covers that loop). Undecided: the interleavings themselves.",
         "technique": "static analysis: lexical lockset (guarded-by) over all methods, structural partition rules",
     },
+    "C36": {
+        "text": "Chain integrity of the alembic revisions against REDUN_DB_VERSIONS; every upgrade() (plus module-local helpers) is scanned for destructive "
+        "operations with SQL text parsed statement by statement (DROP/DELETE only on tables created in the same function; UPDATE only on columns added by "
+        "this or the previous revision); the schema folded over the chain equals the declarative models.",
+        "note": _STD_NOTE + " One known finding recorded (SQLite arm of 3b0a6e67cc58 rewrites job.start_time/end_time). Undecided: row-by-row equality after an upgrade.",
+        "technique": "static analysis: constant extraction, syntactic interpretation of alembic op.* calls, lightweight SQL statement classification",
+    },
 }
